@@ -33,6 +33,8 @@ type c06ctx struct {
 	p      *core.Prog
 	res    *core.Result
 	fns    []*ssa.Function
+	invokeM map[string][]*ssa.Function
+	scope   map[string]bool // package paths in the tier's scope (nil: everything)
 	derefM map[*ssa.Function]map[int]bool // function -> parameter indices dereferenced without a nil guard
 	self   bool
 }
@@ -88,6 +90,36 @@ func (c *c06ctx) p1(f *ssa.Function) {
 			}
 			c.res.Bad("P1", key, c.p.Pos(ta.Pos()), fmt.Sprintf("%s asserts a value derived from %s to %s without the comma-ok form at %s: a request carrying another JSON kind there panics the serving goroutine (the process exits)",
 				fkey, src, at, c.p.Pos(ta.Pos())))
+		}
+	}
+}
+
+// p1b: x == y on two empty-interface operands that both derive from request
+// JSON compares dynamic values; when both hold a list or an object the
+// comparison panics ("comparing uncomparable type []interface {}").
+func (c *c06ctx) p1b(f *ssa.Function) {
+	fkey := core.SSAKey(f)
+	n := 0
+	for _, b := range f.Blocks {
+		for _, in := range b.Instrs {
+			bo, ok := in.(*ssa.BinOp)
+			if !ok || (bo.Op != token.EQL && bo.Op != token.NEQ) {
+				continue
+			}
+			ix, ok1 := bo.X.Type().Underlying().(*types.Interface)
+			iy, ok2 := bo.Y.Type().Underlying().(*types.Interface)
+			if !ok1 || !ok2 || !ix.Empty() || !iy.Empty() || isNilConst(bo.X) || isNilConst(bo.Y) {
+				continue
+			}
+			sx := clientJSON(bo.X, 0, map[ssa.Value]bool{})
+			sy := clientJSON(bo.Y, 0, map[ssa.Value]bool{})
+			if sx == "" || sy == "" {
+				continue
+			}
+			n++
+			c.res.CallSites++
+			key := fmt.Sprintf("%s|iface%s#%d", fkey, bo.Op, n)
+			c.res.Bad("P1", key, c.p.Pos(bo.Pos()), fmt.Sprintf("%s compares two interface values derived from request JSON (%s and %s) with %s at %s: when both hold a list or an object the comparison panics (comparing uncomparable type); reflect.DeepEqual is the total comparison", fkey, sx, sy, bo.Op, c.p.Pos(bo.Pos())))
 		}
 	}
 }
@@ -448,6 +480,113 @@ func travNotNull(cond ssa.Value, truth bool, trav ssa.Value, depth int) bool {
 	return false
 }
 
+func (c *c06ctx) inScopePkg(path string) bool {
+	return c.scope == nil || c.scope[path]
+}
+
+// p2siblings (P2S): every implementation of gdbi.Traveler must agree with the
+// reference one on null handling — IsNull() is "current element == nil", and
+// AddCurrent/AddMark accept a nil element (null travelers are built by passing nil).
+func (c *c06ctx) p2siblings() {
+	iface := c.p.Iface("gdbi", "Traveler")
+	if iface == nil {
+		c.res.Fail("gdbi.Traveler not found")
+		return
+	}
+	for _, named := range c.p.Implementers(iface) {
+		tkey := core.TypeKey(named)
+		for _, mn := range []string{"IsNull", "AddCurrent", "AddMark"} {
+			fi := c.p.Method(named, mn)
+			if fi == nil {
+				continue
+			}
+			f := c.p.SSAFunc(fi.Obj)
+			key := tkey + "." + mn
+			if f == nil || f.Blocks == nil {
+				c.res.Unres("P2S", key, c.p.Pos(fi.Decl.Pos()), "no SSA body")
+				continue
+			}
+			c.res.Fn(core.SSAKey(f))
+			if mn == "IsNull" {
+				verdict := ""
+				for _, b := range f.Blocks {
+					for _, in := range b.Instrs {
+						if r, ok := in.(*ssa.Return); ok && len(r.Results) == 1 {
+							if bo, ok := r.Results[0].(*ssa.BinOp); ok && (isNilConst(bo.X) || isNilConst(bo.Y)) {
+								if bo.Op == token.EQL {
+									verdict = "eq"
+								} else if bo.Op == token.NEQ {
+									verdict = "neq"
+								}
+							}
+						}
+					}
+				}
+				switch verdict {
+				case "eq":
+					c.res.OK("P2S", key, c.p.Pos(fi.Decl.Pos()), "returns <current element> == nil")
+				case "neq":
+					c.res.Bad("P2S", key, c.p.Pos(fi.Decl.Pos()), fmt.Sprintf("%s returns <current element> != nil: it reports ordinary travelers as null and null travelers as ordinary, so every IsNull() guard of the engine is defeated for this traveler type (steps skip all rows, and a real null traveler reaches the dereference the guard protects)", key))
+				default:
+					c.res.Unres("P2S", key, c.p.Pos(fi.Decl.Pos()), "IsNull does not return a nil comparison")
+				}
+				continue
+			}
+			dp := c.derefParams(f, 0)
+			bad := false
+			for i, par := range f.Params {
+				if dp[i] && isDataElementPtr(par.Type()) {
+					bad = true
+				}
+			}
+			if bad {
+				c.res.Bad("P2S", key, c.p.Pos(fi.Decl.Pos()), fmt.Sprintf("%s dereferences its element argument without a nil test (directly or in a callee); the engine builds null travelers by calling it with nil (outNull/inNull, select of an undefined mark, missing elements), which gdbi.BaseTraveler accepts", key))
+			} else {
+				c.res.OK("P2S", key, c.p.Pos(fi.Decl.Pos()), "accepts a nil element")
+			}
+		}
+	}
+}
+
+// invokeTargets: the repository methods an interface method call may dispatch to.
+func (c *c06ctx) invokeTargets(cc *ssa.CallCommon) []*ssa.Function {
+	iface, ok := cc.Value.Type().Underlying().(*types.Interface)
+	if !ok {
+		return nil
+	}
+	key := cc.Value.Type().String() + "." + cc.Method.Name()
+	if t, ok := c.invokeM[key]; ok {
+		return t
+	}
+	var out []*ssa.Function
+	for _, named := range c.p.Implementers(iface) {
+		if !c.inScopePkg(named.Obj().Pkg().Path()) {
+			continue // implementations outside the tier's scope are judged by the sibling rule P2S
+		}
+		for _, t := range []types.Type{named, types.NewPointer(named)} {
+			ms := c.p.SSA.MethodSets.MethodSet(t)
+			if sel := ms.Lookup(cc.Method.Pkg(), cc.Method.Name()); sel != nil {
+				if f := c.p.SSA.MethodValue(sel); f != nil && f.Blocks != nil {
+					dup := false
+					for _, o := range out {
+						if o == f {
+							dup = true
+						}
+					}
+					if !dup && f.Synthetic == "" {
+						out = append(out, f)
+					}
+				}
+			}
+		}
+	}
+	if c.invokeM == nil {
+		c.invokeM = map[string][]*ssa.Function{}
+	}
+	c.invokeM[key] = out
+	return out
+}
+
 // derefParams: which *DataElement parameters f dereferences without a nil guard.
 func (c *c06ctx) derefParams(f *ssa.Function, depth int) map[int]bool {
 	if m, ok := c.derefM[f]; ok {
@@ -566,6 +705,16 @@ func (c *c06ctx) p2(f *ssa.Function) {
 					for k, a := range cc.Args {
 						if dp[k] && isDataElementPtr(a.Type()) {
 							report(x.Pos(), b, a, " passed to "+sc.Name()+" (which dereferences it)", 0)
+						}
+					}
+				} else if cc.IsInvoke() {
+					// interface call: every implementation in the repository may be the callee
+					for _, tgt := range c.invokeTargets(cc) {
+						dp := c.derefParams(tgt, 0)
+						for k, a := range cc.Args {
+							if dp[k+1] && isDataElementPtr(a.Type()) {
+								report(x.Pos(), b, a, " passed to "+core.SSAKey(tgt)+" (which dereferences it)", 0)
+							}
 						}
 					}
 				}
@@ -884,7 +1033,7 @@ func c06(p *core.Prog, res *core.Result) {
 	res.Explanation = "C06 (structural clause): on every function of the engine, server and embedded driver that is reachable (VTA call graph) from an RPC handler, the following panic constructs are absent: " +
 		"P1 single-result type assertions to a JSON kind on dynamically typed values; P2 dereference of a nullable element (Traveler.GetCurrent/GetMark, GraphInterface.GetVertex/GetEdge, ElementLookup.Vertex/Edge, mark map values) not dominated by a nil / IsNull test (SSA dominator facts, one level of callee summaries); " +
 		"P3 constant-index or len-k access to a slice/string not dominated by a sufficient length test and not justified by its producer; P4 close/send on a channel variable that may already be closed (typestate over go/cfg); " +
-		"P5 guards that can never fire (a local map consulted but never written); P6 explicit panic / log.Fatal / os.Exit calls."
+		"P2S every implementation of gdbi.Traveler returns `current == nil` from IsNull and tolerates a nil element in AddCurrent/AddMark (sibling agreement with gdbi.BaseTraveler); P5 guards that can never fire (a local map consulted but never written); P6 explicit panic / log.Fatal / os.Exit calls."
 	res.NotDecided = []string{"panics inside third-party code (jsonpath set on nil map, tdigest, storage engines)", "integer/slice arithmetic outside the enumerated shapes", "resource exhaustion",
 		"external-database drivers (mongo, elastic, psql, existing-sql): not analysed, their panics cannot be triaged without those databases"}
 	res.Assumptions = []string{"a panic in a pipeline goroutine or a gRPC handler terminates the process (grpc-go installs no recovery; pipeline goroutines have none)"}
@@ -910,7 +1059,9 @@ func c06(p *core.Prog, res *core.Result) {
 		return
 	}
 	reach := reachableFrom(p, roots)
-	c := &c06ctx{p: p, res: res, derefM: map[*ssa.Function]map[int]bool{}}
+	c := &c06ctx{p: p, res: res, derefM: map[*ssa.Function]map[int]bool{}, scope: scope}
+	res.Rule("P2S", "traveler implementations agree on null handling (IsNull polarity, nil-tolerant constructors)", 3)
+	c.p2siblings()
 	for f := range reach {
 		if f.Blocks == nil || !scope[ssaRootPkg(f)] || f.Synthetic != "" {
 			continue
@@ -946,6 +1097,7 @@ func c06(p *core.Prog, res *core.Result) {
 	for _, f := range c.fns {
 		res.Fn(core.SSAKey(f))
 		c.p1(f)
+		c.p1b(f)
 		c.p2(f)
 		c.p3(f, exempt)
 		for _, b := range f.Blocks {
@@ -1015,6 +1167,7 @@ func c06selftest(st *core.Prog, res *core.Result) {
 		tmp := core.NewResult("C06", "self")
 		c.res = tmp
 		c.p1(f)
+		c.p1b(f)
 		c.p2(f)
 		c.p3(f, nil)
 		if f.Parent() == nil {
